@@ -185,10 +185,12 @@ def run(m, tier):
     results.append(engine_tables.bracket_rule(m, "C08.R6"))
     from rules import regex_rules
     results.append(regex_rules.anchor_rule(m, "C08.R7"))
+    from rules import delim_rules
+    results.append(delim_rules.delimiter_rule(m, "C08.R8"))
     expl = ("Decides the structural clauses of C08: the table of block constructs extracted from every "
             "BlockBase.match call site agrees with the Fortran 2003/2008 rules (opening/END pair, name and label "
             "comparison flags), every END statement class names its keyword and refuses a bare END where the standard "
             "does, and the generic block engine, specialised per call site, can only report a match after the END "
-            "class was seen and raises on every name mismatch. Does NOT decide absorption of stray statements by "
+            "class was seen and raises on every name mismatch. Brackets/quotes are stripped with x[1:-1] only after both ends of x were tested on that path (40 sites). Does NOT decide absorption of stray statements by "
             "enclosing constructs for every nest, nor unbalanced parentheses.")
     return results, expl
